@@ -12,8 +12,38 @@ pub static STALL: std::sync::atomic::AtomicBool = std::sync::atomic::AtomicBool:
 
 // a hung connection: thread 0's patch check does not return until every other thread has finished
 // all its calls (or 5 s pass, which is reported)
+pub static STALL_BG: std::sync::atomic::AtomicBool = std::sync::atomic::AtomicBool::new(false);
+pub static BG_IN_NET: std::sync::atomic::AtomicBool = std::sync::atomic::AtomicBool::new(false);
+
+// `stall bg`: the hung connection is met by the library's OWN update thread (start_update_thread): its patch check does
+// not return until every scheduled thread has finished all its calls (or 5 s pass, which is reported)
+fn stall_bg(what: &str) {
+    use std::sync::atomic::Ordering::SeqCst;
+    if what != "check" || !STALL_BG.load(SeqCst) || BG_IN_NET.swap(true, SeqCst) {
+        return; // only the first background update hangs
+    }
+    let start = std::time::Instant::now();
+    let mut st = STATE.lock().unwrap();
+    loop {
+        let others_done = (0..MAXT).all(|i| st.finished[i] || !st.present[i]);
+        if others_done || !st.active {
+            return;
+        }
+        if start.elapsed().as_secs() >= 5 {
+            crate::replay::DEPTH_VIOLATIONS
+                .lock()
+                .unwrap()
+                .push("calls did not complete while the update thread was stuck in the network".into());
+            return;
+        }
+        let (g, _) = CV.wait_timeout(st, std::time::Duration::from_millis(100)).unwrap();
+        st = g;
+    }
+}
+
 fn stall_hook(what: &str) {
     let Some(me) = IDX.with(|c| c.get()) else {
+        stall_bg(what);
         return;
     };
     if what != "check" || me != 0 || !STALL.load(std::sync::atomic::Ordering::SeqCst) {
